@@ -604,6 +604,8 @@ func (m *memoryStore) incrLSN() {
 }
 
 func newFileStore(path string, autoFlushCache bool) (*fileStore, error) {
+	wantedAutoFlush := autoFlushCache
+	autoFlushCache = verifAutoFlush(autoFlushCache)
 	file, err := os.OpenFile(path, os.O_CREATE|os.O_RDWR, 0644)
 	if err != nil {
 		return nil, err
@@ -630,6 +632,7 @@ func newFileStore(path string, autoFlushCache bool) (*fileStore, error) {
 			}
 		}()
 	}
+	verifOpened(fs, wantedAutoFlush)
 	return fs, nil
 }
 
@@ -663,6 +666,7 @@ func (f *fileStore) unlockExclusive() {
 
 func (f *fileStore) close() error {
 	defer f.file.Close()
+	defer verifClosed(f)
 	if f.autoFlushCache {
 		f.ticker.Stop()
 		f.tickerDone <- true
@@ -697,6 +701,7 @@ func (f *fileStore) update(node *btreeNode) error {
 	if err != nil {
 		return err
 	}
+	verifPoint("page.write", node.getFileOffset())
 	if _, err := f.file.WriteAt(buf.Bytes(), int64(node.getFileOffset())); err != nil {
 		return err
 	}
@@ -767,6 +772,7 @@ func (f *fileStore) save() error {
 	if err := binary.Write(writer, binary.LittleEndian, f._nextLSN); err != nil {
 		return err
 	}
+	verifPoint("header.write", 0)
 	if _, err := f.file.WriteAt(writer.Bytes(), 0); err != nil {
 		return err
 	}
@@ -793,6 +799,8 @@ func (f *fileStore) open() error {
 func (f *fileStore) flushPages() error {
 	f.lockExclusive()
 	defer f.unlockExclusive()
+	verifPoint("flush.begin", 0)
+	defer verifPoint("flush.end", 0)
 	for _, v := range f.cache.cache {
 		node := v.Value.(*cacheEntry).val
 		if !node.isDirty() {
@@ -807,6 +815,7 @@ func (f *fileStore) flushPages() error {
 }
 
 func (f *fileStore) setCache(key any, val *btreeNode) error {
+	verifPoint("cache.set", val.getFileOffset())
 	if !f.cache.set(key, val) {
 		return ErrLRUCacheFull
 	}
